@@ -26,10 +26,9 @@ open Verif.Tables
 
 /-! ## input validation (real strings) -/
 
-/-- Python `str.isspace` on the characters the generators use (ASCII white space, NEL, NBSP, LS/PS). -/
-def isPySpace (c : Char) : Bool :=
-  c = ' ' || c = '\t' || c = '\n' || c = '\r' || c = Char.ofNat 11 || c = Char.ofNat 12
-  || (28 ≤ c.toNat && c.toNat ≤ 31) || c.toNat = 0x85 || c.toNat = 0xa0 || c.toNat = 0x2028 || c.toNat = 0x2029
+/-- Python `str.isspace`: the table `c19SpaceCodes` is generated from the running interpreter
+(`[c for c in range(0x110000) if chr(c).isspace()]`) and pinned in `c19_pins` -/
+def isPySpace (c : Char) : Bool := c19SpaceCodes.contains c.toNat
 
 def lstrip : List Char → List Char
   | [] => []
